@@ -31,6 +31,7 @@ def run(tier):
     n, nops = (20, 45) if not big else (400, 120)
     chk.rules.append(wlcheck.RULE)
     wl_run.run_histories(chk, n, nops, TAGS, 'histories')
+    wl_run.run_histories(chk, max(6, n // 4), nops, TAGS, 'histories-casefold', family='casefold')
     chk.assumptions += ['two_level_iterator.c is exercised through whole tables and whole databases; its own model is part of the table slice']
     return chk.finish()
 
